@@ -25,12 +25,27 @@ def setup_imports():
 def write_input(d, case, name='in.bam'):
     p = case['params']
     path = os.path.join(d, name)
+    extra_header = None
+    hr = p.get('header_rgs')
+    if hr:
+        # the input already declares read groups (a tagged file merged with untagged reads, a file re-headered by another tool ...)
+        libn = p.get('lib', 'LIB')
+        ids = sorted({f"HFLOW{f.get('fc', 1)}.{f.get('lane', 1)}.{libn}_{f['cell'] + 1}" for f in case['workload']})
+        if hr == 'subset':
+            ids = ids[:max(1, len(ids) // 2)]
+        elif hr == 'other':
+            ids = ['OTHERFLOW.9.SOMEONE_1']
+        extra_header = {'RG': [{'ID': i, 'SM': i.split('.', 2)[2], 'LB': libn, 'PL': 'ILLUMINA', 'PU': i} for i in ids]}
+    _real_write = lib.write_input_bam
+
+    def _write(path_, genome_, frags_, **kw):
+        return _real_write(path_, genome_, frags_, extra_header=extra_header, **kw)
     st = p.get('index_state')
     if st and st[0] == 'stale':
         # an earlier, different version of the file was indexed; the file was then re-written in place and the old index left behind
-        lib.write_input_bam(path, case['genome'], case['workload'][:max(1, len(case['workload']) // 2)], encoded=p.get('encoded', True), lib=p.get('lib', 'LIB'))
+        _write(path, case['genome'], case['workload'][:max(1, len(case['workload']) // 2)], encoded=p.get('encoded', True), lib=p.get('lib', 'LIB'))
         os.rename(path + '.bai', path + '.bai.old')
-    lib.write_input_bam(path, case['genome'], case['workload'], encoded=p.get('encoded', True), lib=p.get('lib', 'LIB'))
+    _write(path, case['genome'], case['workload'], encoded=p.get('encoded', True), lib=p.get('lib', 'LIB'))
     if st and st[0] == 'stale':
         os.replace(path + '.bai.old', path + '.bai')
         t = os.path.getmtime(path)
@@ -114,3 +129,23 @@ def failure_signature(o):
     if res.get('no_result'):
         return f"died-exit{res.get('exit')}"
     return f"status={o['status']!r}"[:60]
+
+
+def conservation_diff(P, workload, method, no_rejects, got_records):
+    """(missing, extra) multisets of primary records: output vs what the statement requires for this run"""
+    both = {i for i, c in collections.Counter(r['id'] for r in P).items() if c == 2}
+    got = collections.Counter(conservation_key(r, both) for r in got_records if not r['sec'])
+    if not no_rejects:
+        target = collections.Counter(conservation_key(r, both) for r in P)
+    else:
+        invalid_ids = {f['n'] for f in workload if lib.invalid_for(f, method)}
+        half = {f['n'] for f in workload if f.get('defect') == 'r2unmapped'}
+        target = collections.Counter(conservation_key(r, both) for r in P if r['id'] not in invalid_ids)
+        # the unmapped mate of a half-mapped pair is handed over as a fragment of its own: optional under --no_rejects
+        for r in P:
+            if r['id'] in half and r['mate'] == 2:
+                k = conservation_key(r, both)
+                if got.get(k, 0) < target.get(k, 0):
+                    target[k] = got.get(k, 0)
+        target = +target
+    return multiset_diff(target, got)
